@@ -24,23 +24,12 @@ LEAN_MODULE = 'CC.Properties.C17'
 LEVEL = 'proof'
 THEOREMS = [
     'CC.C17_polar_cartesian', 'CC.C17_polar_eq_cartesian', 'CC.C17_degree_radian', 'CC.C17_undictify_notations',
-    'CC.C17_faithful_partial', 'CC.C17_admittance_always_fails', 'CC.C17_faithful_counterexample',
-    'CC.C17_table_total', 'CC.C17_table_wellformed_partial', 'CC.C17_table_wellformed_counterexample',
-    'CC.C17_circuit_table_total',
-    'CC.C17_toComplex_pure_partial', 'CC.C17_toComplex_pure_counterexample',
-    'CC.C17_mutation_exact', 'CC.C17_pure_counterexample', 'CC.C17_pure_partial',
-    'CC.C17_second_load_fails', 'CC.C17_idempotent_counterexample',
-    'CC.C17_circuit_pure', 'CC.C17_circuit_idempotent',
-    'CC.C17_dictifyAll_identity', 'CC.C17_roundtrip_counterexample', 'CC.C17_serialize_passes_complex',
-    'CC.C17_roundtrip_partial', 'CC.C17_undictify_scalar_list_counterexample',
-    'CC.C17_circuit_complex_counterexample', 'CC.C17_roundtrip_repaired',
+    'CC.C17_faithful', 'CC.C17_table_total', 'CC.C17_table_wellformed', 'CC.C17_circuit_table_total',
+    'CC.C17_toComplex_pure', 'CC.C17_pure', 'CC.C17_idempotent', 'CC.C17_circuit_pure', 'CC.C17_circuit_idempotent',
+    'CC.C17_roundtrip', 'CC.C17_roundtrip_codec', 'CC.C17_dictify_converts', 'CC.C17_undictify_scalar_list',
+    'CC.C17_circuit_complex',
 ]
-# full-strength statements that are *false* of the current code (each has a proved counterexample and a proved restriction)
-OPEN_STATEMENTS = ['CC.C17_faithful_statement (refuted: C17_faithful_counterexample; restriction: C17_faithful_partial)',
-                   'CC.C17_pure_statement (refuted: C17_pure_counterexample, C17_toComplex_pure_counterexample; restriction: C17_pure_partial, C17_mutation_exact)',
-                   'CC.C17_idempotent_statement (refuted: C17_idempotent_counterexample, C17_second_load_fails; restriction: C17_circuit_idempotent)',
-                   'CC.C17_roundtrip_statement (refuted: C17_roundtrip_counterexample; restriction: C17_roundtrip_partial)',
-                   'CC.C17_table_wellformed_statement (refuted: C17_table_wellformed_counterexample; restriction: C17_table_wellformed_partial)']
+OPEN_STATEMENTS = []
 ASSUMPTIONS = [
     'json/yaml are parameters of the model: `loads (dumps t) = t` on plain trees (checked per case by the round-trip oracle)',
     'cos, sin, the binary64 product x*(pi/180) and np.deg2rad are parameters (the harness passes numpy\'s values); polar values are compared within 1e-12 relative',
@@ -148,7 +137,7 @@ def trig_for(*trees, depth=3):
     for x in list(ph):
         y = x
         for _ in range(depth):
-            y2 = y * (np.pi / 180)
+            y2 = y * np.pi / 180          # as loaders.to_complex computes it
             rad.append([core.q(y), core.q(y2)])
             xs.add(y2); y = y2
     for x in pd:
@@ -352,7 +341,9 @@ def gen_component(rng, kind, ident, nodes, cx_as='python'):
                 elif cx_as == 'real':
                     v = num(rng); value[p] = v; meaning[p] = complex(v)
                 else:
-                    d, _ = cx_notation(rng, cx_as); value[p] = d; meaning[p] = intended_complex(d)
+                    d, _ = cx_notation(rng, cx_as)
+                    if 'abs' in d: d['abs'] = abs(d['abs'])      # dump_load's notations demand abs >= 0
+                    value[p] = d; meaning[p] = intended_complex(d)
     items = [('type', kind), ('id', ident), ('nodes', list(nodes)), ('value', value)]
     if rng.random() < 0.4:
         rng.shuffle(items)
@@ -556,8 +547,8 @@ def check_inplace(ctx, out, name, t, all_):
         op = 'c17_dictify' if name.startswith('dictify') else 'c17_undictify'
         m = ctx.driver.call(op, t=before, all=all_, trig=trig_for(t))
         ok = res_same(m['res'], kind, enc(val) if kind == 'ok' else val, same) and same(m['post'], after)
-        if kind == 'ok' and val is not t_impl:
-            ok = False                                  # the model says: returns its argument
+        if kind == 'ok' and isinstance(t_impl, (dict, list)) and val is t_impl:
+            ok = False                                  # the model says: a new container, never the argument
         if not ok:
             out.disagree(name, t, dict(res=(kind, str(val)[:300]), post=after), m)
         out.traces_validated += 1
@@ -586,6 +577,8 @@ def check_inplace(ctx, out, name, t, all_):
                         break
                 else:
                     out.nontrivial(('undictify', notation))
+    if before != after:
+        out.spec_fail(dict(op=name, symptom='argument_mutated'), f'{name} changed the document it was given', t, impl=dict(after=t_impl))
     return kind, val
 
 LIBS = None
@@ -610,17 +603,20 @@ def check_serialize(ctx, out, t, fmt, file=None):
             with open(file) as f:
                 val = f.read()
     after = enc(t_impl)
+    if before != after:
+        out.spec_fail(dict(op='serialize', symptom='argument_mutated', format=str(fmt)), 'serialize changed the document it was given', t, impl=dict(after=t_impl))
     if ctx.driver is not None:
         m = ctx.driver.call('c17_serialize', t=before, **(dict(fmt=fmt) if file is None else dict(file=file)))
         if 'err' in m:
             mk, mv, tree_ok = 'err', m['err'], True
         else:
-            # the model says which library function receives which tree; the tree must be the one the
-            # implementation hands over (its argument after the in-place dict_processor), and the library
-            # applied to it must produce the implementation's outcome
-            tree_ok = same(m['tree'], after)
-            mk, mv = attempt(libs()[m['lib']], t_impl)
-        if (mk, mv) != (kind, val) or not tree_ok or not same(m['post'], after):
+            # the model says which library function receives which tree: the tree must be what the
+            # implementation's own dict_processor makes of the document, and the library applied to
+            # that must produce the implementation's outcome
+            handed = DL.dictify_all_complex_values(copy.deepcopy(t))
+            tree_ok = same(m['tree'], enc(handed))
+            mk, mv = attempt(libs()[m['lib']], handed)
+        if (mk, mv) != (kind, val) or not tree_ok:
             out.disagree('serialize', dict(t=t, fmt=fmt, file=file), dict(res=(kind, val), post=after), dict(model=m, applied=(mk, mv)))
         out.traces_validated += 1
     return kind, val
@@ -739,6 +735,26 @@ def check_generate_component(ctx, out, comp, meaning, valid, notation):
         out.spec_fail(dict(op='generate_component', symptom='unfaithful', kind=kind_s, notation=notation),
                       f'loaded {kind_s} component differs from what was written', comp, impl=str(v1), spec=str(want))
     out.nontrivial(('component', kind_s, notation))
+
+def check_circuit_text(ctx, out, comp, meaning, notation, fmt):
+    """a circuit *file* whose complex values are written in a documented notation (oracle on Circuit.dump_load.deserialize)"""
+    from CircuitCalculator.Circuit import dump_load as CDL
+    import yaml
+    kind_s = comp['type']
+    doc = {'components': [comp]}
+    text = json.dumps(doc) if fmt == 'json' else yaml.dump(doc)
+    k, v = check_deserialize(ctx, out, text, fmt, circuit=True)
+    if k == 'err':
+        out.spec_fail(dict(op='circuit_deserialize', symptom='valid_description_raises', kind=kind_s, exc=v, notation=notation),
+                      f'a circuit file with a {kind_s} component in {notation} notation does not load: {v}', doc, impl=dict(exception=v), fmt=fmt)
+        return
+    c = v.components[0]
+    want = INTENDED_C[kind_s][1](meaning)
+    okv = set(want) == set(c.value) and all(core.close(c.value[x], want[x], 0.0, 1e-12) for x in want)
+    if not (c.type == kind_s and c.id == comp['id'] and list(c.nodes) == list(comp['nodes']) and okv):
+        out.spec_fail(dict(op='circuit_deserialize', symptom='unfaithful', kind=kind_s, notation=notation),
+                      f'{kind_s} component loaded from a file differs from what was written', doc, impl=str(c), spec=str(want), fmt=fmt)
+    out.nontrivial(('circuit_file', kind_s, notation, fmt))
 
 def check_undictify_circuit(ctx, out, circ):
     from CircuitCalculator.Circuit import dump_load as CDL
@@ -867,7 +883,10 @@ def run(ctx, out):
         os.makedirs(os.path.dirname(path), exist_ok=True)
         k, s = check_serialize(ctx, out, t, None, file=path)
         check_deserialize(ctx, out, s if k == 'ok' else '{}', None, file=path)
-    # round-trip oracle
+    # round-trip oracle: first the former failing documents (fixed by 2481879; reported again if it is reverted)
+    for t in ({'a': complex(1, 2)}, {'nodes': ['0', '1']}, {'l': [complex(0, 1), {'z': complex(3, 4)}, 2.5, [complex(1, 0)]]}):
+        for fmt in fmts:
+            check_roundtrip(ctx, out, copy.deepcopy(t), fmt)
     for i in range(45 * scale):
         c = i % 3
         t = gen_tree(rng, cx=(c == 0), cxlike=False, scalars_in_lists=(c == 1))
@@ -886,7 +905,18 @@ def run(ctx, out):
                 continue
             for rep in range(2 * scale):
                 comp, meaning = gen_component(rng, kind, rng.choice(IDS), rng.sample(LABELS, 2), cx_as)
-                check_generate_component(ctx, out, comp, meaning, True, cx_as if has_cx else 'real')
+                if cx_as in ('cart', 'polar'):
+                    # the notations are a matter of the *file* loader: Circuit.dump_load.deserialize converts them,
+                    # generate_component itself takes Python numbers (correspondence only)
+                    check_generate_component(ctx, out, comp, meaning, False, cx_as)
+                    check_circuit_text(ctx, out, comp, meaning, cx_as, ('json', 'yaml', 'yml')[rep % 3])
+                else:
+                    check_generate_component(ctx, out, comp, meaning, True, cx_as if has_cx else 'real')
+    # former failing circuit files (fixed by b379006)
+    check_circuit_text(ctx, out, {'type': 'impedance', 'id': 'Z', 'nodes': ['0', '1'], 'value': {'Z': {'real': 1, 'imag': 2}}},
+                       {'Z': complex(1, 2)}, 'cart', 'json')
+    check_circuit_text(ctx, out, {'type': 'complex_voltage_source', 'id': 'V', 'nodes': ['1', '0'], 'value': {'V': {'abs': 2, 'phase': 0.5}}},
+                       {'V': 2 * cmath.rect(1.0, 0.5)}, 'polar', 'yaml')
     for i in range(30 * scale):
         n = rng.randint(1, 5)
         ids = rng.sample(IDS, n)
